@@ -88,6 +88,22 @@ theorem enclosed_join_prefix {n p : Name} (h : enclosedName n = some p) (base : 
   have := enclosed_join_inside h base (components p).length
   rwa [List.take_length] at this
 
+/-- **Joining stays inside ANY base directory** — relative to any working directory `cwd` or absolute,
+written with or without "." / "..": after the whole walk and after every initial part of it the
+joined path normalises to the directory the base itself denotes, followed by something.
+(`enclosed_join_inside` is the instance of an absolute, normalised base: `staysInside_iff_any`.) -/
+theorem enclosed_join_inside_any {n p : Name} (h : enclosedName n = some p) (cwd : List Name)
+    (base : List Comp) : StaysInsideAny cwd base (components p) := by
+  have hp := enclosed_is_name h
+  subst hp
+  apply staysInsideAny_of_walk
+  unfold enclosedName at h
+  split at h
+  · cases h
+  · split at h
+    · next hw => rw [hw]; rfl
+    · cases h
+
 /-- `depth += 1` cannot overflow: every value the counter takes is at most `len + 1`, and a Rust
 string has `len ≤ isize::MAX`. -/
 theorem enclosed_depth_no_overflow (n : Name) (k d : Nat)
@@ -186,6 +202,18 @@ theorem mangled_join_inside (n : Name) (base : List Name) :
   | nil => simp [depth]
   | cons a l ih => simp only [List.map_cons, depth]; omega
 
+/-- … and every base directory however written (relative, unnormalised, from any working directory). -/
+theorem mangled_join_inside_any (n : Name) (cwd : List Name) (base : List Comp) :
+    StaysInsideAny cwd base (components (mangledName n)) := by
+  apply staysInsideAny_of_walk
+  rw [mangled_components, walk_isSome_iff]
+  refine ⟨by simp, fun k => ?_⟩
+  rw [← List.map_take]
+  generalize (mangledComps n).take k = l
+  induction l with
+  | nil => simp [depth]
+  | cons a l ih => simp only [List.map_cons, depth]; omega
+
 theorem mangled_join_prefix (n : Name) (base : List Name) :
     ∃ rest, joinResolve base (components (mangledName n)) = base ++ rest := by
   have := mangled_join_inside n base (components (mangledName n)).length
@@ -220,6 +248,31 @@ example : joinResolve ["base".toList, "dir".toList] (components "a/../b".toList)
     = ["base".toList, "dir".toList, "b".toList] := by decide
 example : joinResolve ["base".toList, "dir".toList] (components "../x".toList)
     = ["base".toList, "x".toList] := by decide
+-- a relative, unnormalised base "../out/./x/.." seen from /home/u: it denotes /home/out, and joining
+-- "a/../b" onto it ends in /home/out/b, passing only through /home/out/…
+example : resolveFrom ["home".toList, "u".toList] (components "../out/./x/..".toList)
+    = ["home".toList, "out".toList] := by decide
+example : resolveFrom ["home".toList, "u".toList]
+    (components "../out/./x/..".toList ++ components "a/../b".toList)
+    = ["home".toList, "out".toList, "b".toList] := by decide
+example : StaysInsideAny ["home".toList, "u".toList] (components "../out/./x/..".toList)
+    (components "a/../b".toList) :=
+  enclosed_join_inside_any (n := "a/../b".toList) (by decide) _ _
+-- an absolute base given to a process elsewhere: the `rootDir` component resets the stack
+example : resolveFrom ["home".toList] (components "/srv/../tmp".toList ++ components "a/../b".toList)
+    = ["tmp".toList, "b".toList] := by decide
+-- "../x" leaves also such a base
+example : ¬ StaysInsideAny ["home".toList, "u".toList] (components "../out".toList)
+    (components "../x".toList) := by
+  intro h
+  obtain ⟨rest, hr⟩ := h 1
+  have e : resolveFrom ["home".toList, "u".toList]
+      (components "../out".toList ++ (components "../x".toList).take 1) = ["home".toList] := by decide
+  have e2 : resolveFrom ["home".toList, "u".toList] (components "../out".toList)
+      = ["home".toList, "out".toList] := by decide
+  rw [e, e2] at hr
+  have := congrArg List.length hr
+  simp at this
 example : ¬ StaysInside ["base".toList] (components "../x".toList) := by
   intro h
   obtain ⟨rest, hr⟩ := h 1
